@@ -162,7 +162,7 @@ Equality of the per-module output between two different compilations is not comp
     grouping(m, ctx);
     imports(m, ctx);
     associated_imports(m, ctx);
-    qualified(m, ctx);
+    qualified(m, ctx, "C12.qualified");
     // C12.scope (= C09.scope): a named number in a constraint is looked up in the governing type (and the chain of type
     // references behind it) — a lookup that reaches past it searches the definitions of *every* module compiled alongside
     super::c09::scope(m, ctx, "C12.scope");
@@ -271,7 +271,7 @@ fn associated_imports(m: &Model, ctx: &mut Ctx) {
 /// C12.qualified: "module-qualified references resolve to that module". Every place of the rasn generator that renders
 /// a type reference (a DeclarationElsewhere binding `x`) goes through to_rust_qualified_type(x.module, x.identifier);
 /// a site that renders `x.identifier` with a bare name mangler drops the `Module.` qualifier the source wrote.
-fn qualified(m: &Model, ctx: &mut Ctx) {
+pub fn qualified(m: &Model, ctx: &mut Ctx, rule: &str) {
     let mut sites = 0;
     for f in m.fns.iter().filter(|f| f.krate == "rasn-compiler" && f.module.starts_with("generator::rasn") && !f.module.contains("tests")) {
         for mc in model::method_calls_in(&f.block) {
@@ -283,19 +283,19 @@ fn qualified(m: &Model, ctx: &mut Ctx) {
             let line = model::line_of(syn::spanned::Spanned::span(&mc));
             if name == "to_rust_qualified_type" {
                 sites += 1;
-                ctx.oblige("C12.qualified", &format!("{}:{}", f.name, x), true);
+                ctx.oblige(rule, &format!("{}:{}", f.name, x), true);
                 if args.first().map(|a| a.as_str()) != Some(&format!("{}.module.as_deref()", x)) {
-                    ctx.violate("C12.qualified", &format!("module-of-another-reference:{}", f.name), &f.file, line,
+                    ctx.violate(rule, &format!("module-of-another-reference:{}", f.name), &f.file, line,
                         &format!("{} renders the reference `{}` with the module `{}`: the qualifier must be the one written on that reference (`{}.module`)", f.name, x, args.first().cloned().unwrap_or_default(), x));
                 }
             } else if name.starts_with("to_rust_") {
-                ctx.oblige("C12.qualified", &format!("{}:{}", f.name, x), true);
-                ctx.violate("C12.qualified", &format!("qualifier-dropped:{}", f.name), &f.file, line,
+                ctx.oblige(rule, &format!("{}:{}", f.name, x), true);
+                ctx.violate(rule, &format!("qualifier-dropped:{}", f.name), &f.file, line,
                     &format!("{} renders the type reference `{}` with `{}(&{}.identifier)`: a reference written `Mod-B.Width` loses its module and resolves (or fails to resolve) in the current module instead of `super::mod_b::Width`; the sibling sites use to_rust_qualified_type({}.module.as_deref(), &{}.identifier)", f.name, x, name, x, x, x));
             }
         }
     }
-    ctx.floor("C12.qualified/reference-rendering-sites", sites, 4);
+    ctx.floor(&format!("{}/reference-rendering-sites", rule), sites, 4);
 }
 
 fn imports(m: &Model, ctx: &mut Ctx) {
